@@ -426,6 +426,12 @@ class TElement:
                 assert is_valid_inner_node
                 self.start_pos = self.value[0].start_pos
                 self.end_pos = self.value[-1].end_pos
+                # trailing children which matched nothing are located at the
+                # following token; the node ends where its last token ends
+                for child in reversed(self.value):
+                    if child.start_pos.coords != child.end_pos.coords:
+                        self.end_pos = child.end_pos
+                        break
             else:
                 self.start_pos = start_pos
                 self.end_pos = end_pos
